@@ -143,6 +143,17 @@ theorem closeStep_par_one (cfg : PartCfg) (s : DC) (x : Xml) (p : Par) (hm : tag
         simp only [this, List.getLast?_nil]; rfl
     · exact hcore s
 
+/-- the flush keeps the queued runs, the ranges and the list counters -/
+theorem flushImplicit_keeps (s s' : DC) (d : Option Nat) (h : s.flushImplicit d = .ok s') :
+    s'.queued = s.queued ∧ s'.ranges = s.ranges ∧ s'.bullets = s.bullets := by
+  rcases flushImplicit_cases s s' d h with e | e
+  · subst e; exact ⟨rfl, rfl, rfl⟩
+  · cases hp : s.openPars.getLast? with
+    | none => unfold DC.concludePar at e; simp only [hp] at e; have := pure_ok e; subst this; exact ⟨rfl, rfl, rfl⟩
+    | some p0 =>
+      obtain ⟨_, _, a3, a4, a5⟩ := concludePar_spec s s' p0 hp e
+      exact ⟨a3, a4, a5⟩
+
 theorem noImpl_of_closed {s : DC} (h : s.openPars = []) : NoImpl s := by
   intro p hp; rw [h] at hp; cases hp
 
